@@ -27,7 +27,7 @@ TECHNIQUE = ("deterministic simulation (seeded API-call histories) with a guarde
 def budget(tier):
     if tier == "thorough":
         return {"runs": 3000, "wall": 3000}
-    return {"runs": 640, "wall": 600}
+    return {"runs": 1280, "wall": 600}
 
 
 def generate(seed, tier):
@@ -38,6 +38,37 @@ def generate(seed, tier):
         st2 = Streams(kernel.H(seed, "retry", tries))
         prog, g, cfg = scen.flat_program(st2, True, {"max_fields": 3})
         tries += 1
+    # bounds-specific shapes: a multi-interval 'in' domain with relational bounds that touch
+    # interval ends, and range lists whose bounds are non-random fields (re-assigned between calls)
+    rng = st.prog
+    k0 = prog["classes"][0]
+    rf = [f for f in k0["fields"] if f["k"] == "s" and f.get("r") and not f["s"] and f["w"] >= 3]
+    if rf and rng.random() < 0.6:
+        f = rng.choice(rf)
+        hi = (1 << f["w"]) - 1
+        cuts = sorted(rng.sample(range(0, hi + 1), min(hi + 1, rng.choice([4, 6, 8]))))
+        ranges = [[cuts[i], cuts[i + 1]] for i in range(0, len(cuts) - 1, 2) if cuts[i + 1] > cuts[i]]
+        ranges = [r for j, r in enumerate(ranges) if j == 0 or r[0] > ranges[j - 1][1] + 1]
+        stmts = []
+        if ranges:
+            stmts.append(progs.EXPR({"t": "in", "e": progs.F(f["n"]), "rl": ranges}))
+            ends = [x for r in ranges for x in r]
+            for _ in range(rng.randint(1, 2)):
+                v = rng.choice(ends)
+                op, lit = rng.choice([(">=", v), (">", v - 1), ("<=", v), ("<", v + 1)])
+                if 0 <= lit <= hi + 1:
+                    stmts.append(progs.EXPR(progs.BIN(op, progs.F(f["n"]), progs.LIT(lit))))
+        if stmts:
+            k0["blocks"].append({"n": "cb", "stmts": stmts})
+    nrf = [f for f in k0["fields"] if f["k"] == "s" and not f.get("r") and not f["s"]]
+    rf2 = [f for f in k0["fields"] if f["k"] == "s" and f.get("r") and not f["s"]]
+    if nrf and rf2 and rng.random() < 0.6:
+        f = rng.choice(rf2)
+        kf = rng.choice(nrf)
+        hi = (1 << f["w"]) - 1
+        items = [[{"t": "f", "p": [kf["n"]]}, rng.randint(0, hi)]] if rng.random() < 0.6 else \
+            [{"t": "f", "p": [kf["n"]]}, rng.randint(0, hi)]
+        k0["blocks"].append({"n": "cw", "stmts": [progs.EXPR({"t": "in", "e": progs.F(f["n"]), "rl": items})]})
     n_parties = st.ops.choice([1, 1, 2])
     n_ops = st.ops.randint(6, 20 if tier == "quick" else 40)
     ops = scen.history_ops(st, prog, g, n_parties, n_ops,
